@@ -395,7 +395,7 @@ package parse
 
 //@ func ReplaceEntities
 //@   mapspec entitiesMap: ok ==> len(value) <= len(key) + 2
-//@   mapspec revEntitiesMap: ok ==> len(value) <= n && len(value) >= 2
+//@   mapspec revEntitiesMap: ok ==> len(value) <= n && len(value) >= 2 && value[0] == '&'
 //@   ensures[S,C17] @never-longer: len(result) <= len(b)
 //@   loop * candidate 0 <= i && i <= len(b)
 //@   loop * candidate -1 <= i && i <= len(b)
@@ -404,7 +404,7 @@ package parse
 
 //@ func ReplaceMultipleWhitespaceAndEntities
 //@   mapspec entitiesMap: ok ==> len(value) <= len(key) + 2
-//@   mapspec revEntitiesMap: ok ==> len(value) <= n && len(value) >= 2
+//@   mapspec revEntitiesMap: ok ==> len(value) <= n && len(value) >= 2 && value[0] == '&'
 //@   ensures[S,C17] @never-longer: len(result) <= len(b)
 // as in ReplaceMultipleWhitespace: the first byte of every white-space run holds ' ' or '\n' after the iteration that met it
 //@   loop 1 transition[F,C17] @run-normalised: isWS(prev(b[i])) ==> b[prev(i)] == ' ' || b[prev(i)] == '\n'
